@@ -168,6 +168,16 @@ def run_shard(spec, R):
                 ok2, out = R.guarded("call", lambda: fresh(S, S, dst))
                 if ok2:
                     R.check(float(np.max(np.abs(out - dst))) <= 1e-5 * unit, "exact_map_recovered", {**case, "via": "__call__"}, group=it["cls"])
+                # a second object of the same class is fitted to other data while this one is alive: this one still
+                # reproduces its own destinations
+                So = gen_swatches(rng)
+                Ao, bo = gen_truth(rng, it["truth"])
+                other = getattr(CB, it["cls"])()
+                oko, _ = R.guarded("find_balance", lambda: other.find_balance(So, So @ Ao + bo))
+                if oko:
+                    erro = float(np.max(np.abs(bal.apply_balance(S) - dst)))
+                    R.check(erro <= 1e-5 * unit, "exact_map_recovered", lambda: {**case, "after": "another object of the class was fitted", "max_error": erro}, group=it["cls"])
+                    R.count("two_live_balances")
                 # re-fit on a second exact data set from where the balance stands
                 S2 = gen_swatches(rng)
                 A2, b2 = gen_truth(rng, it["truth"])
